@@ -41,7 +41,7 @@ import BpModel.Load
   The comparison of a value with a field DEFAULT (`defEq`) is defined first, on its own: the
   default is not a sub-term of either operand, so `slotsEq` cannot recurse into it.  That it
   IS the general comparison against the materialised default, on either side, is
-  `valEq_default_right` / `valEq_default_left` in BpProofs/EqSound.lean.
+  `Bp.EqS.valEq_default_right` / `valEq_default_left` in BpProofs/EqSound.lean.
 -/
 namespace Bp
 
@@ -142,7 +142,7 @@ def defAtom : DefKind → Option Val
   | .list | .dict | .msg _ => Option.none
 
 /-- an atom `v` against the default of kind `k` (unequal when that default is a container).
-    Used for both orders of the operands: `atomEq` is symmetric (`atomEq_comm`, BpProofs/EqSound.lean) -/
+    Used for both orders of the operands: `atomEq` is symmetric (`Bp.EqS.atomEq_comm`, BpProofs/EqSound.lean) -/
 def atomDefEq (k : DefKind) (v : Val) : Bool :=
   match defAtom k with
   | some d => atomEq v d
@@ -168,6 +168,7 @@ def defEq (S : Schema) (k : DefKind) : Val → Bool
   | .byt s => atomDefEq k (.byt s)
   | .ts us => atomDefEq k (.ts us)
   | .dur us => atomDefEq k (.dur us)
+termination_by structural v => v
 /-- `Message.__eq__` between the slots `vs` and those of a fresh instance (`None` for a
     proto3-optional field, PLACEHOLDER otherwise): PLACEHOLDER against `None` compares the
     field default with `None`; a value against `None` is equal only if it is `None`;
@@ -179,6 +180,7 @@ def slotsDef (S : Schema) : List FieldD → List Val → Bool
      | .none => if f.optional then true else atomDefEq f.defKind .none
      | v => if f.optional then false else defEq S f.defKind v) && slotsDef S fs vs
   | _, _ => true
+termination_by structural _ vs => vs
 end
 
 /-! ### two values -/
@@ -210,11 +212,13 @@ def valEq (S : Schema) : Val → Val → Bool
   | .byt s, b => atomEq (.byt s) b
   | .ts us, b => atomEq (.ts us) b
   | .dur us, b => atomEq (.dur us) b
+termination_by structural a => a
 /-- lists: the same length and item-wise -/
 def listEq (S : Schema) : List Val → List Val → Bool
   | [], [] => true
   | x :: xs, y :: ys => valEq S x y && listEq S xs ys
   | _, _ => false
+termination_by structural xs => xs
 /-- every entry `(k, v)` of the left dict has a counterpart `b[k]` with `v` equal to it -/
 def dictEq (S : Schema) : List Val → List Val → List Val → List Val → Bool
   | k :: ks, v :: vs, ks', vs' =>
@@ -222,6 +226,7 @@ def dictEq (S : Schema) : List Val → List Val → List Val → List Val → Bo
      | some v' => valEq S v v'
      | Option.none => false) && dictEq S ks vs ks' vs'
   | _, _, _, _ => true
+termination_by structural _ vs => vs
 /-- the loop of `Message.__eq__` over `meta_by_field_name` -/
 def slotsEq (S : Schema) : List FieldD → List Val → List Val → Bool
   | f :: fs, a :: as, b :: bs =>
@@ -233,6 +238,7 @@ def slotsEq (S : Schema) : List FieldD → List Val → List Val → Bool
              | .ph => defEq S f.defKind a
              | b => valEq S a b)) && slotsEq S fs as bs
   | _, _, _ => true
+termination_by structural _ as => as
 end
 
 /-- `m == m'` for two message instances: `Message.__eq__` -/
